@@ -819,3 +819,20 @@ Proof. vm_compute. repeat split. Qed.
 Example ex_premature_wait_refused :   (* rank 1 cannot leave the wait while the white message is in flight *)
   nrun (init false [[5]; [7]]) [OStart 0; OStart 1; OExtract 0 5; ORemote 0 1 6; OFinish 0; OFlip 0; OFlip 1; OContrib 0; OContrib 1; OReduced 0; OReduced 1; OWhite 1] = None.
 Proof. vm_compute. reflexivity. Qed.
+
+(* names used by the extracted replay driver *)
+Definition gn_init (w : bool) (queues : list (list nat)) : st := init w queues.
+Definition gn_exec (s : st) (o : op) : option st := nexec s o.
+Definition gn_gvt (s : st) : option nat := gvt_of s.
+Definition gn_col (s : st) (i : nat) : bool := match nth_error (rks s) i with Some x => col x | None => false end.
+Definition gn_ctr (s : st) (i d : nat) : nat := match nth_error (rks s) i with Some x => ctr x d | None => 0 end.
+Definition gn_need (s : st) (i : nat) : nat := match nth_error (rks s) i with Some x => need x | None => 0 end.
+Definition gn_recv (s : st) (i : nat) (c : bool) : nat := match nth_error (rks s) i with Some x => recv x c | None => 0 end.
+Definition gn_stage (s : st) (i : nat) : nat := match nth_error (rks s) i with Some x => sn (stg x) | None => 0 end.
+Fixpoint find_msg (n : list msg) (i : nat) (c : bool) (k : nat) : option nat :=
+  match n with
+  | [] => None
+  | m :: r => if Nat.eqb (mdst m) i && Bool.eqb (mcol m) c then Some k else find_msg r i c (S k)
+  end.
+Definition gn_find (s : st) (i : nat) (c : bool) : option nat := find_msg (net s) i c 0.
+Definition gn_inflight (s : st) : nat := length (net s).
